@@ -11,8 +11,10 @@ package aaa
 //   R,<i>,<ifx>            restored event
 //   X,<i>,<snap>           lifecycle event, state released
 //   T,<bucket>,<failmask>,<snap>   ProcessAccountingBucket(bucket); sessions in failmask get an error from UpdateAccounting
-//   H,S / H,-              from now on StartAccounting calls are delayed inside the provider fake (do not reach the
-//                          backend) / are no longer delayed;  U  lets the delayed calls through, oldest first
+//   H,S / H,I / H,SI / H,- from now on StartAccounting calls are delayed inside the provider fake (S: do not reach the
+//                          backend) and/or UpdateAccounting calls reach the backend but get no response (I: recorded
+//                          with flag h, the caller stays blocked) / nothing is held;  U  lets the delayed Starts through
+//                          and delivers the outstanding responses (K<i> acknowledged, F<i> failed), oldest first
 //   B                      restart: new component over the same opdb, loadAcctSessions
 //   P,<0|1>                pruneOrphanedAcctEntries(now [+10 min])
 //   C/<snap>/<m>/<m>...    the notifications m (A,i,ifx  R,i,ifx  X,i  T,bucket,mask) are delivered CONCURRENTLY, one
@@ -60,10 +62,14 @@ type vf09Call struct {
 	rx, tx, rp, tp uint64
 	ok             bool
 	seq            int
+	held           bool // Interim whose response is still outstanding
+	resp           byte // pseudo call: 'K' / 'F' = a held response was delivered (acknowledged / failed)
 }
 
 type vf09Held struct {
 	sid     string
+	kind    byte // 'S': a Start that has not reached the backend yet; 'I': an Interim that has, its response is outstanding
+	fail    bool // 'I': the response will be an error
 	release chan struct{}
 }
 
@@ -74,7 +80,11 @@ type vf09Provider struct {
 	// asynchronous delivery: while holdStart is set a StartAccounting call does not reach the backend (is not
 	// recorded) until the harness lets it through - the goroutine that carries it is simply slow
 	holdStart bool
-	held      []*vf09Held
+	// holdInterim: an UpdateAccounting call reaches the backend (is recorded, flag 'h' = no response yet) but does not
+	// return until the harness delivers its response - a slow or lost Accounting-Response
+	holdInterim bool
+	anyHeldInt  bool
+	held        []*vf09Held
 }
 
 func (p *vf09Provider) nHeld() int {
@@ -90,12 +100,12 @@ func (*vf09Provider) Authenticate(context.Context, *auth.AuthRequest) (*auth.Aut
 func (p *vf09Provider) rec(kind byte, s *auth.Session, ok bool) {
 	p.mu.Lock()
 	defer p.mu.Unlock()
-	p.calls = append(p.calls, vf09Call{kind, s.SessionID, s.RxBytes, s.TxBytes, s.RxPackets, s.TxPackets, ok, len(p.calls)})
+	p.calls = append(p.calls, vf09Call{kind: kind, sid: s.SessionID, rx: s.RxBytes, tx: s.TxBytes, rp: s.RxPackets, tp: s.TxPackets, ok: ok, seq: len(p.calls)})
 }
 func (p *vf09Provider) StartAccounting(_ context.Context, s *auth.Session) error {
 	p.mu.Lock()
 	if p.holdStart {
-		h := &vf09Held{sid: s.SessionID, release: make(chan struct{})}
+		h := &vf09Held{sid: s.SessionID, kind: 'S', release: make(chan struct{})}
 		p.held = append(p.held, h)
 		p.mu.Unlock()
 		<-h.release
@@ -108,6 +118,19 @@ func (p *vf09Provider) StartAccounting(_ context.Context, s *auth.Session) error
 func (p *vf09Provider) UpdateAccounting(_ context.Context, s *auth.Session) error {
 	p.mu.Lock()
 	f := p.fail[s.SessionID]
+	if p.holdInterim {
+		h := &vf09Held{sid: s.SessionID, kind: 'I', fail: f, release: make(chan struct{})}
+		p.held = append(p.held, h)
+		p.anyHeldInt = true
+		p.calls = append(p.calls, vf09Call{kind: 'I', sid: s.SessionID, rx: s.RxBytes, tx: s.TxBytes, rp: s.RxPackets, tp: s.TxPackets,
+			seq: len(p.calls), held: true})
+		p.mu.Unlock()
+		<-h.release
+		if f {
+			return errors.New("accounting transport timeout")
+		}
+		return nil
+	}
 	p.mu.Unlock()
 	p.rec('I', s, !f)
 	if f {
@@ -353,6 +376,9 @@ type vf09Mon struct {
 func (m *vf09Mon) event(kind byte, calls []vf09Call) {
 	nstops := 0
 	for _, c := range calls {
+		if c.resp != 0 {
+			continue
+		}
 		v := [4]uint64{c.rx, c.tx, c.rp, c.tp}
 		ge := v[0] >= m.prev[0] && v[1] >= m.prev[1] && v[2] >= m.prev[2] && v[3] >= m.prev[3]
 		geS := v[0] >= m.prevSent[0] && v[1] >= m.prevSent[1] && v[2] >= m.prevSent[2] && v[3] >= m.prevSent[3]
@@ -707,8 +733,12 @@ func vf09RunCase(line string, g0 int) (res string) {
 				continue
 			}
 			t := fmt.Sprintf("%c%d:%s", c.kind, i, vf09C4(c.rx, c.tx, c.rp, c.tp))
-			if c.kind == 'I' {
-				if c.ok {
+			if c.resp != 0 {
+				t = fmt.Sprintf("%c%d", c.resp, i)
+			} else if c.kind == 'I' {
+				if c.held {
+					t += ":h"
+				} else if c.ok {
 					t += ":k"
 				} else {
 					t += ":f"
@@ -836,6 +866,12 @@ func vf09RunCase(line string, g0 int) (res string) {
 	d := "racy"
 	if !racy {
 		d = w.dump()
+		w.ap.mu.Lock()
+		if w.ap.anyHeldInt {
+			// the checkpoint written by a late response (also for a session released meanwhile) is not modelled
+			d = "held"
+		}
+		w.ap.mu.Unlock()
 	}
 	return strings.Join(groups, " ") + " ; " + d + " ; " + strings.Join(vs, " ")
 }
@@ -874,7 +910,7 @@ func (w *vf09World) valid(a []string) bool {
 	case "P":
 		return len(a) == 2
 	case "H":
-		return len(a) == 2 && (a[1] == "S" || a[1] == "-")
+		return len(a) == 2 && (a[1] == "S" || a[1] == "I" || a[1] == "SI" || a[1] == "-")
 	}
 	return false
 }
@@ -940,7 +976,8 @@ func (w *vf09World) exec(a []string) string {
 		w.c.pruneOrphanedAcctEntries(now)
 	case "H":
 		w.ap.mu.Lock()
-		w.ap.holdStart = a[1] == "S"
+		w.ap.holdStart = strings.Contains(a[1], "S")
+		w.ap.holdInterim = strings.Contains(a[1], "I")
 		w.ap.mu.Unlock()
 	case "U":
 		// let the delayed calls through, session by session, oldest first, one at a time
@@ -948,11 +985,26 @@ func (w *vf09World) exec(a []string) string {
 		hs := w.ap.held
 		w.ap.held = nil
 		w.ap.mu.Unlock()
-		sort.SliceStable(hs, func(x, y int) bool { return w.idx[hs[x].sid] < w.idx[hs[y].sid] })
+		// per session: the delayed Starts first, then the outstanding responses, each oldest first
+		sort.SliceStable(hs, func(x, y int) bool {
+			if w.idx[hs[x].sid] != w.idx[hs[y].sid] {
+				return w.idx[hs[x].sid] < w.idx[hs[y].sid]
+			}
+			return hs[x].kind == 'S' && hs[y].kind == 'I'
+		})
 		for i, h := range hs {
+			if h.kind == 'I' {
+				r := byte('K')
+				if h.fail {
+					r = 'F'
+				}
+				w.ap.mu.Lock()
+				w.ap.calls = append(w.ap.calls, vf09Call{kind: 'I', sid: h.sid, resp: r, seq: len(w.ap.calls)})
+				w.ap.mu.Unlock()
+			}
 			close(h.release)
 			if !vf09Quiesce(w.g0 + len(hs) - 1 - i) {
-				return "hang releasing a delayed Start"
+				return "hang releasing a delayed call"
 			}
 		}
 	}
